@@ -259,12 +259,25 @@ type c17Variant struct {
 	Kind     string   `json:"kind"` // spell | layout
 	Headers  []string `json:"headers,omitempty"`
 	Spelling []string `json:"spellings,omitempty"`
+	Line     int      `json:"line,omitempty"` // spell-line: which line of the repeated header (0-based)
 	Family   string   `json:"family,omitempty"`
 	Mask     int      `json:"mask,omitempty"`
 	Sep      string   `json:"sep,omitempty"`
 }
 
 func (vt c17Variant) apply(m *WMsg) *WMsg {
+	if vt.Kind == "spell-line" {
+		k := 0
+		for i := range m.Hdrs {
+			if canonName(m.Hdrs[i].Name) == vt.Headers[0] {
+				if k == vt.Line {
+					m.Hdrs[i].Name = c17Spell(vt.Headers[0], vt.Spelling[0])
+				}
+				k++
+			}
+		}
+		return m
+	}
 	if vt.Kind == "spell" {
 		for k, h := range vt.Headers {
 			for i := range m.Hdrs {
@@ -355,6 +368,18 @@ func c17Variants(sc c17Scenario, thorough bool) []c17Variant {
 			}
 		}
 	}
+	// independent respelling: only ONE line of a header that occupies several lines
+	for _, fam := range []string{"via", "route", "record-route"} {
+		lines := len(subject.All(fam))
+		if lines < 2 {
+			continue
+		}
+		for k := 0; k < lines; k++ {
+			for _, sp := range spellings(fam) {
+				out = append(out, c17Variant{Scenario: sc.Name, Kind: "spell-line", Headers: []string{fam}, Spelling: []string{sp}, Line: k})
+			}
+		}
+	}
 	for _, fam := range []string{"via", "route", "record-route"} {
 		n := 0
 		for _, val := range subject.All(fam) {
@@ -425,7 +450,13 @@ func c17RunAll(c *Ctx) {
 			c.Outcome(sc.Name)
 			if cl != "" {
 				sig := cl + "|" + sc.Name + "|"
-				if vt.Kind == "spell" {
+				if vt.Kind == "spell-line" {
+					sp := vt.Spelling[0]
+					if sp == "upper" || sp == "lower" || sp == "alternating" {
+						sp = "case"
+					}
+					sig += fmt.Sprintf("one-line:%s=%s", vt.Headers[0], sp)
+				} else if vt.Kind == "spell" {
 					// minimise a pair to a single respelling when one alone suffices
 					if len(vt.Headers) == 2 {
 						for k := 0; k < 2; k++ {
@@ -457,7 +488,7 @@ func c17RunAll(c *Ctx) {
 
 func init() {
 	addCheck(&Check{ID: "C17", Level: "exploration",
-		Rule: "metamorphic: 10 scenarios (request to backend over UDP and TCP, by Route, by static route, response by Via, pin by INVITE response, in-dialog request, pin lifetime by Expires, NOTIFY terminated, SUBSCRIBE response pinning) x every variant of the subject message with ONE header name respelled (compact where it exists, upper, lower, alternating case, upper-case compact; all headers incl. Content-Length, CSeq, Call-ID, Expires, Subscription-State, Record-Route; thorough: every PAIR of simultaneous respellings) and every re-layout (all compositions, with/without blank after comma) of the Via / Route / Record-Route lists; base and variant run on identically prepared worlds and must agree on every destination of every step (incl. the follow-up in-dialog probes = pinning decision), decoded Via/Route/Record-Route stacks, remaining fields modulo the respelled names, single Content-Length and body; non-trivial = subject relayed in the base run",
+		Rule: "metamorphic: 10 scenarios (request to backend over UDP and TCP, by Route, by static route, response by Via, pin by INVITE response, in-dialog request, pin lifetime by Expires, NOTIFY terminated, SUBSCRIBE response pinning) x every variant of the subject message with ONE header name respelled (compact where it exists, upper, lower, alternating case, upper-case compact; all headers incl. Content-Length, CSeq, Call-ID, Expires, Subscription-State, Record-Route; thorough: every PAIR of simultaneous respellings), with only ONE line of a multi-line Via/Route/Record-Route respelled (independent respelling) and every re-layout (all compositions, with/without blank after comma) of the Via / Route / Record-Route lists; base and variant run on identically prepared worlds and must agree on every destination of every step (incl. the follow-up in-dialog probes = pinning decision), decoded Via/Route/Record-Route stacks, remaining fields modulo the respelled names, single Content-Length and body; non-trivial = subject relayed in the base run",
 		Run:  c17RunAll,
 		Replay: func(c *Ctx, raw json.RawMessage) string {
 			var vt c17Variant
